@@ -258,7 +258,31 @@ def e_use_z(files, opts, rng):
         files["src/alone.veryl"] = files["src/alone.veryl"].replace("a + 1", "a + PkgA::Z")
 
 
-EDITS = [("const", e_const), ("ws", e_ws), ("warn+", e_warn_add), ("warn-", e_warn_del), ("err+", e_err_add),
+def e_leaf_default(files, opts, rng):
+    """Leaf gets / toggles a port with a default value: every instantiating file's OUTPUT changes
+    (`.en(0)` vs `.en(1)`) although its own text does not."""
+    if "src/leaf.veryl" in files:
+        s = files["src/leaf.veryl"]
+        if "en: input  logic = 0" in s:
+            files["src/leaf.veryl"] = s.replace("en: input  logic = 0", "en: input  logic = 1")
+        elif "en: input  logic = 1" in s:
+            files["src/leaf.veryl"] = s.replace("en: input  logic = 1", "en: input  logic = 0")
+        else:
+            files["src/leaf.veryl"] = re.sub(r"(    [oq]: output logic<N>,\n)", r"\1    en: input  logic = 0,\n", s, count=1)
+
+
+def e_new_dependency(files, opts, rng):
+    """alone.veryl starts instantiating Leaf in a LATER build (a dependency that did not exist when
+    Leaf's cache entry was first written)."""
+    k = "src/alone.veryl" if "src/alone.veryl" in files else ("src/sub/alone2.veryl" if "src/sub/alone2.veryl" in files else None)
+    if k and "src/leaf.veryl" in files and "inst ul:" not in files[k]:
+        leaf = re.search(r"module (\w+)", files["src/leaf.veryl"]).group(1)
+        outp = "q" if "    q: output" in files["src/leaf.veryl"] else "o"
+        files[k] = re.sub(r"\n\}\s*$", f"\n    var lo_d: logic;\n    inst ul: {leaf} ( i: a[0], {outp}: lo_d );\n}}\n",
+                          files[k], count=1)
+
+
+EDITS = [("leaf_default", e_leaf_default), ("new_dep", e_new_dependency), ("const", e_const), ("ws", e_ws), ("warn+", e_warn_add), ("warn-", e_warn_del), ("err+", e_err_add),
          ("err-", e_err_del), ("rename_leaf", e_rename_leaf), ("fix_mid", e_fix_mid), ("delete", e_delete),
          ("restore", e_restore), ("add", e_add), ("move", e_move), ("toml", e_toml), ("port_width", e_port_width),
          ("leaf_port_rename", e_leaf_port_rename), ("pkg_rm_const", e_pkg_remove_const), ("use_z", e_use_z)]
